@@ -267,7 +267,33 @@ def file_of(F, path):
     return (f.get('sp') or '').split(':')[0] or None
 
 
-def local_policy(F, root, events=(), keep=(), also_inline=(), **kw):
+_branch_cache = {}
+
+
+def branch_count(F, path):
+    """number of branching constructs (if / match / loops) in a function body, closures included"""
+    key = (id(F), path)
+    if key in _branch_cache:
+        return _branch_cache[key]
+    n = [0]
+
+    def walk(x):
+        if isinstance(x, dict):
+            if x.get('k') in ('If', 'Match', 'Loop'):
+                n[0] += 1
+            for v in x.values():
+                walk(v)
+        elif isinstance(x, list):
+            for v in x:
+                walk(v)
+    h = F.hir.get(path)
+    if h:
+        walk(h.get('body'))
+    _branch_cache[key] = n[0]
+    return n[0]
+
+
+def local_policy(F, root, events=(), keep=(), also_inline=(), public_events=False, max_branches=14, **kw):
     """The policy the rules use to look *through* helper functions: every function written in the same source
     file as `root` (helpers extracted next to it, private methods, closures) is inlined, whatever its name or
     visibility; calls matching `events` are kept opaque and recorded in the trace; calls matching `keep` are
@@ -278,15 +304,34 @@ def local_policy(F, root, events=(), keep=(), also_inline=(), **kw):
     kp = [re.compile(x) for x in keep]
     ai = [re.compile(x) for x in also_inline]
 
+    def is_public(p):
+        f = F.fns.get(p)
+        return bool(f) and f.get('vis') == 'Public' and f.get('kind') in ('Fn', 'AssocFn')
+
     def is_event(p):
-        return any(r.search(p) for r in ev)
+        if any(r.search(p) for r in ev):
+            return True
+        # with public_events, the crate's public API (and everything outside the crate except std) is the
+        # vocabulary of the trace; private / pub(crate) helpers are looked through
+        if public_events and p != root:
+            if p in F.hir:
+                if any(r.search(p) for r in ai):
+                    return False
+                if is_public(p) or file_of(F, p) != rf:
+                    return True
+                return '{closure' not in p and branch_count(F, p) > max_branches
+            return not (p.startswith('std::') or p.startswith('log::') or p.startswith('anyhow::'))
+        return False
 
     def inline(p):
         if is_event(p) or any(r.search(p) for r in kp):
             return False
         if any(r.search(p) for r in ai):
             return True
-        return p in F.hir and file_of(F, p) == rf
+        if not (p in F.hir and file_of(F, p) == rf):
+            return False
+        # a helper is glue; a function with a large decision structure of its own is a step, not glue
+        return '{closure' in p or branch_count(F, p) <= max_branches
     return Policy(effects=is_event, inline=inline, **kw)
 
 
@@ -1087,6 +1132,18 @@ class State:
             return ('fnitem', e['def'])
         if res in ('Const', 'AssocConst', 'Static', 'ConstParam') or (res or '').startswith('Const') \
                 or (res or '').startswith('AssocConst') or (res or '').startswith('Static'):
+            c = getattr(self.f, 'consts', {}).get(norm_path(e.get('def', '?')))
+            if c is not None and self.depth < 20:
+                # a local constant: its initialiser is its value
+                self.depth += 1
+                try:
+                    v = self.expr(c['body'], {})
+                    if v[0] in ('lit', 'ctor', 'list', 'tup'):
+                        return v
+                except (EvalError, KeyError):
+                    pass
+                finally:
+                    self.depth -= 1
             return ('call', e.get('def', '?'), ())
         if res == 'SelfTy':
             if 'variant' in e:
@@ -1209,6 +1266,21 @@ class State:
                 return r
         if base[0] == 'tup' and name.isdigit():
             return base[1][int(name)]
+        # a struct that was lent `&mut` to opaque callees (after(...)) keeps its shared-reference fields: nothing in
+        # walrus re-seats `EmitContext.module` & co; reading such a field goes through to the constructed value
+        inner = base
+        while inner[0] == 'call' and inner[1] == 'after' and len(inner[2]) >= 1:
+            inner = inner[2][0]
+        if inner is not base and inner[0] == 'ctor':
+            var = self.f.variant(inner[1], inner[2])
+            fty = None
+            for fd in (var or {}).get('fields', []):
+                if fd['name'] == name:
+                    fty = fd['ty']
+            if fty and fty.startswith('&') and not fty.startswith('&mut') and not re.match(r"^&'\w+ mut ", fty):
+                r = cfield(inner, name)
+                if r is not None:
+                    return r
         return self.refine(('field', base, name))
 
     def e_Index(self, e, env):
